@@ -41,6 +41,21 @@
 //!     INVITE and the 1xx that CREATED the early dialog (RFC 3261 12.1.2); a later provisional response is no
 //!     target refresh (12.2.1.2), so all of these requests follow that dialog state, CSeq above the INVITE's and
 //!     increasing.
+//! and - both roles - two dimensions of the dialog-creating exchange that the rule does not depend on:
+//!   * SECURITY (`ruri` / `target`, `secure_tp`, the Contact generator): the URI the dialog-creating INVITE is
+//!     addressed to is a sip: or a sips: URI (UAS: the Request-URI of the peer's INVITE; UAC: the target handed to
+//!     `ClientDialogBuilder` / `Initiator`; with or without port / transport parameter) x the peer's Contact is a
+//!     sip: URI (also with `;transport=tls`, the form deployed phones write on a TLS connection) or a sips: URI x
+//!     the world's transport is plain UDP or a secure datagram transport (always secure for a sips: URI - the
+//!     endpoint selects no other).  All four scheme combinations occur in both roles; the Request-URI of every
+//!     created request is the remote target AS THE PEER WROTE IT, scheme included.
+//!   * FIRST SEQUENCE NUMBER (`first_cseq`): the number the dialog's local CSeq counter starts from is left to
+//!     ezk's random draw (half of the cases) or chosen through the pub fields the API offers (UAS:
+//!     `Dialog.local_cseq` right after `Dialog::new_server`, only values the draw itself can yield, 0..=2^31-2;
+//!     UAC: `ClientDialogBuilder.local_cseq` before the first INVITE, so that the dialog-creating INVITE stays
+//!     below 2^31): 0..=8 below the last number under 2^31 / 2^8 / 2^16 / 2^24, 0, or anything.  A dialog of a
+//!     few requests (hundreds when created on threads) then counts ACROSS that power of two; the numbers keep
+//!     increasing there like anywhere else.
 //! and - both roles, wherever a `Session` exists - TRANSPORT TROUBLE while ezk itself creates and sends a request
 //! inside the dialog (`SendFault`): the `Transport::send` call for the BYE of `Session::terminate()` (0..2
 //! calls in a row) or for the refresh re-INVITE of `RefreshNeeded::process_default()` stays pending for a while
@@ -59,7 +74,10 @@
 //! of another branch `uac-early-`; there a PRACK whose Request-URI / Route is what the response it acknowledges
 //! would yield (instead of the dialog state) is named `prack-request-uri-is-contact-of-acknowledged-1xx` /
 //! `prack-route-is-record-route-of-acknowledged-1xx`.  A Route that is the route set with entries left out is
-//! named `route-entries-missing` (see `ref_dialog`).  A first request that is not
+//! named `route-entries-missing` (see `ref_dialog`); a Request-URI that is the remote target under the other scheme
+//! (sip <-> sips, all else equal) `request-uri-scheme-differs-from-remote-target`; a number that is not above its
+//! predecessor but is that predecessor's successor cut off at 2^8 / 2^16 / 2^24 / 2^31 / 2^32 `wrapped-at-2^k`
+//! (the judged sequence then goes on from the wrapped number).  A first request that is not
 //! above the creating INVITE is named `first-not-above-renumbered-invite` when an earlier attempt of that INVITE
 //! carried another number (the counter evidently did not follow the repetition), `first-not-above-invite` otherwise.
 //! The CSeq sequence that is judged consists of the requests that reached the wire plus the ones the threads
@@ -76,7 +94,12 @@
 //! objects for one dialog - not generated, the early dialog of `early` belongs to a branch that never answers 2xx),
 //! the RAck header of a PRACK, any relation between the CSeq numbers of the early and the confirmed dialog, what
 //! `terminate()` / `process_default()` return after a failed send beyond "an error", the number of the request
-//! whose send failed, URI headers (`?h=v`) in a Contact (not generated).
+//! whose send failed, URI headers (`?h=v`) in a Contact (not generated), that a CSeq number stays below 2^31
+//! (RFC 3261 8.1.1.5 - the statement demands strictly increasing numbers, so a dialog that started just below 2^31
+//! is expected to count on: 2147483648 ...), on which transport the requests of a dialog set up with a sips: URI
+//! travel (the transport is handed to the dialog explicitly / kept from the INVITE), whether a peer may answer a
+//! sips: INVITE with a sip: Contact at all (peers do; the dialog state is what the peer sent), the first sequence
+//! number of a dialog behind the `Initiator` (its builder is private: left to the random draw).
 
 use super::c06::ChannelLayer;
 use crate::engine::*;
@@ -176,8 +199,23 @@ pub struct UasCase {
     /// Acceptor without final answer: the peer cancels, the invite layer answers 487 through the dialog
     #[serde(default)]
     pub cancel: bool,
+    /// Request-URI of the peer's INVITE (sip: or sips:, with or without port / transport parameter)
+    #[serde(default = "default_ruri")]
+    pub ruri: String,
+    /// the transport the INVITE arrives on (and everything else of the case travels on) is a secure one
+    #[serde(default)]
+    pub secure_tp: bool,
+    /// `Some(n)`: the dialog's first local sequence number is n (stored into the pub field `Dialog.local_cseq`
+    /// right after `Dialog::new_server`, before any request exists).  n is a value `random_sequence_number()`
+    /// itself draws with non-zero probability (0..=2^31-2): the store only makes the draw deterministic.
+    #[serde(default)]
+    pub first_cseq: Option<u32>,
     pub ops: Ops,
     pub rng: u8,
+}
+
+fn default_ruri() -> String {
+    "sip:uas@10.0.0.1".to_string()
 }
 
 #[derive(Serialize, Deserialize, Clone, Debug, Hash)]
@@ -224,6 +262,15 @@ pub struct UacCase {
     /// acknowledges reliable provisional responses with PRACK and creates other requests, see `EarlyDialog`
     #[serde(default)]
     pub early: Option<EarlyDialog>,
+    /// the world's transport is a secure one (always when `target` is a sips: URI: the endpoint selects no
+    /// other for it)
+    #[serde(default)]
+    pub secure_tp: bool,
+    /// `ClientDialogBuilder` only: `Some(n)`: the application sets the pub field `local_cseq` to n before it creates
+    /// the first INVITE (an application that numbers its requests itself, or simply the value the builder's
+    /// random draw yields).  n plus all later `bump`s stays below 2^31 (RFC 3261 8.1.1.5).
+    #[serde(default)]
+    pub first_cseq: Option<u32>,
     pub ops: Ops,
     pub rng: u8,
 }
@@ -416,7 +463,20 @@ fn g_contact_wire() -> BoxedStrategy<String> {
             1 => Just("[2001:db8::9]".to_string()),
         ],
         prop_oneof![2 => Just(None), 1 => (1024u16..65535).prop_map(Some)],
-        prop::sample::subsequence(vec![";transport=udp", ";user=phone", ";x-c=1", ";ob", ";maddr=192.0.2.200"], 0..=3),
+        (
+            // `transport` parameter: a sip: Contact with `;transport=tls` is what most deployed phones write on
+            // a TLS connection; it stays a sip: URI
+            prop_oneof![4 => Just(""), 3 => Just(";transport=udp"), 2 => Just(";transport=tls"), 1 => Just(";transport=tcp")],
+            prop::sample::subsequence(vec![";user=phone", ";x-c=1", ";ob", ";maddr=192.0.2.200"], 0..=2),
+        )
+            .prop_map(|(t, rest)| {
+                let mut v: Vec<&'static str> = vec![];
+                if !t.is_empty() {
+                    v.push(t);
+                }
+                v.extend(rest);
+                v
+            }),
         prop::sample::subsequence(vec![";expires=3600", ";q=0.5", ";+sip.instance=\"<urn:uuid:0001>\""], 0..=2),
         prop_oneof![4 => Just(false), 1 => Just(true)],
     )
@@ -638,6 +698,39 @@ fn g_cseq() -> BoxedStrategy<u32> {
     .boxed()
 }
 
+/// powers of two a sequence counter might be cut off at (a 31-bit mask for RFC 3261 8.1.1.5, a narrower integer type)
+const CSEQ_EDGES: &[u32] = &[31, 8, 16, 24];
+
+/// The dialog's first local sequence number: left to ezk's random draw (`None`, most cases), or chosen: just below
+/// 2^31 / 2^8 / 2^16 / 2^24 (0..=8 below the last number under the edge, so that a dialog of a few requests counts
+/// across it), 0, or anything up to `max`.  `max` = largest value the API can legitimately start from.
+fn g_first_cseq(max: u32) -> BoxedStrategy<Option<u32>> {
+    prop_oneof![
+        6 => Just(None),
+        4 => (prop_oneof![3 => Just(0usize), 1 => Just(1usize), 1 => Just(2usize), 1 => Just(3usize)], 0u32..=8)
+            .prop_map(move |(k, d)| Some((((1u64 << CSEQ_EDGES[k]) - 1 - d as u64) as u32).min(max))),
+        1 => Just(Some(0u32)),
+        1 => (0u32..=max).prop_map(Some),
+    ]
+    .boxed()
+}
+
+/// Request-URI of the peer's INVITE: mostly a sip: URI; two in five cases a sips: URI (RFC 3261 8.1.1.8,
+/// 12.1.1: the dialog is then to be continued over secure transports - which says nothing about the Request-URI of
+/// later requests: that is the remote target, the peer's Contact, whatever its scheme)
+fn g_invite_ruri() -> BoxedStrategy<String> {
+    prop_oneof![
+        4 => Just("sip:uas@10.0.0.1"),
+        1 => Just("sip:uas@10.0.0.1:5060;transport=udp"),
+        1 => Just("sip:uas@10.0.0.1:5062"),
+        2 => Just("sips:uas@10.0.0.1"),
+        1 => Just("sips:uas@10.0.0.1:5061"),
+        1 => Just("sips:uas@10.0.0.1;transport=tcp"),
+    ]
+    .prop_map(|s| s.to_string())
+    .boxed()
+}
+
 pub fn uas_strategy() -> BoxedStrategy<UasCase> {
     (
         (g_fromto_wire(), g_tag(), prop_oneof![5 => Just(""), 1 => Just(";x-f=1")]),
@@ -659,10 +752,12 @@ pub fn uas_strategy() -> BoxedStrategy<UasCase> {
             any::<bool>(),
         ),
         g_ops(),
+        // (the random draw of `Dialog::new_server` ends at 2^31-2)
+        (g_invite_ruri(), any::<bool>(), g_first_cseq((1u32 << 31) - 2)),
         any::<u8>(),
     )
         .prop_map(
-            |(((fd, fu, fb), ftag, fextra), (td, tu, tb), call_id, cseq, contact, (rr, rr_layout, names), (lcd, lcu), (provisionals, final_code, acceptor), mut ops, rng)| {
+            |(((fd, fu, fb), ftag, fextra), (td, tu, tb), call_id, cseq, contact, (rr, rr_layout, names), (lcd, lcu), (provisionals, final_code, acceptor), mut ops, (ruri, secure_tp, first_cseq), rng)| {
                 if !(acceptor && matches!(final_code, Some(200..=299))) {
                     // no Session, no terminate()
                     ops.term_faults.clear();
@@ -682,6 +777,10 @@ pub fn uas_strategy() -> BoxedStrategy<UasCase> {
                     final_code,
                     acceptor,
                     cancel: acceptor && final_code.is_none(),
+                    // a request to a sips: URI travels on secure transports only
+                    secure_tp: secure_tp || ruri.starts_with("sips:"),
+                    ruri,
+                    first_cseq,
                     ops,
                     rng,
                 }
@@ -717,6 +816,9 @@ pub fn uas_code_cases(_tier: Tier) -> Vec<UasCase> {
                     final_code: if code >= 200 { Some(code) } else { None },
                     acceptor,
                     cancel: false,
+                    ruri: default_ruri(),
+                    secure_tp: false,
+                    first_cseq: None,
                     ops: Ops {
                         methods: vec![0],
                         threads: false,
@@ -740,6 +842,14 @@ const TARGETS_DIRECT: &[&str] = &[
 ];
 /// through the Initiator the endpoint selects the transport itself: IP literals only (no DNS in the world)
 const TARGETS_INITIATOR: &[&str] = &["sip:bob@192.0.2.9", "sip:192.0.2.9:5060", "sip:bob@192.0.2.9;transport=udp"];
+/// the callee is addressed with a sips: URI (a third of the cases); the world's transport is then a secure one
+const TARGETS_DIRECT_SIPS: &[&str] = &[
+    "sips:bob@192.0.2.9",
+    "sips:bob@biloxi.example.com",
+    "sips:bob@biloxi.example.com:5081;transport=tcp",
+    "sips:192.0.2.9:5061",
+];
+const TARGETS_INITIATOR_SIPS: &[&str] = &["sips:bob@192.0.2.9", "sips:192.0.2.9:5061", "sips:bob@192.0.2.9;transport=tcp"];
 
 /// 0..=3 rejected INVITE attempts before the one that creates the dialog (half of the cases have none)
 fn g_prior() -> BoxedStrategy<Vec<Attempt>> {
@@ -966,10 +1076,11 @@ pub fn uac_strategy() -> BoxedStrategy<UacCase> {
             ],
         ),
         (g_ops(), 0u8..EARLY_CONTACT_KINDS, 0u8..EARLY_RR_KINDS),
+        (prop_oneof![2 => Just(false), 1 => Just(true)], any::<bool>(), g_first_cseq((1u32 << 31) - 1)),
         any::<u8>(),
     )
         .prop_map(
-            |((ld, lu), (lcd, lcu), (tsel, mut prior, mut fork, mut early), (peer_provisionals, code, to_tag, peer_contact), (rr, rr_layout), initiator, (refresh, refresh_fault), (mut ops, early_contact, early_rr), rng)| {
+            |((ld, lu), (lcd, lcu), (tsel, mut prior, mut fork, mut early), (peer_provisionals, code, to_tag, peer_contact), (rr, rr_layout), initiator, (refresh, refresh_fault), (mut ops, early_contact, early_rr), (sips, secure_tp, first_cseq), rng)| {
                 // the second branch of a fork is another UAS: its tag differs from the first one's
                 if let Some(f) = fork.as_mut() {
                     if f.to_tag == to_tag {
@@ -999,11 +1110,17 @@ pub fn uac_strategy() -> BoxedStrategy<UacCase> {
                         a.bump = 0;
                     }
                 }
-                let target = if initiator {
-                    TARGETS_INITIATOR[pick_idx(tsel, TARGETS_INITIATOR.len())]
-                } else {
-                    TARGETS_DIRECT[pick_idx(tsel, TARGETS_DIRECT.len())]
+                let targets = match (initiator, sips) {
+                    (true, false) => TARGETS_INITIATOR,
+                    (true, true) => TARGETS_INITIATOR_SIPS,
+                    (false, false) => TARGETS_DIRECT,
+                    (false, true) => TARGETS_DIRECT_SIPS,
                 };
+                let target = targets[pick_idx(tsel, targets.len())];
+                // the Initiator keeps its builder to itself; the INVITE that creates the dialog (after all the
+                // raises of the earlier attempts) keeps its CSeq below 2^31
+                let total_bump: u32 = prior.iter().map(|a| a.bump as u32).sum();
+                let first_cseq = if initiator { None } else { first_cseq.map(|n| n.min((1u32 << 31) - 1 - total_bump)) };
                 if !initiator {
                     // no Session, no terminate()
                     ops.term_faults.clear();
@@ -1029,6 +1146,8 @@ pub fn uac_strategy() -> BoxedStrategy<UacCase> {
                     early_rr,
                     refresh_fault: if refresh.is_some() { refresh_fault } else { None },
                     early,
+                    secure_tp: secure_tp || sips,
+                    first_cseq,
                     ops,
                     rng,
                 }
@@ -1061,8 +1180,8 @@ fn invite_text(case: &UasCase) -> Vec<u8> {
         2 => ("FROM", "to", "CALL-ID", "contact", "record-route"),
         _ => ("From", "To", "Call-ID", "Contact", "Record-Route"),
     };
-    let mut s = String::from("INVITE sip:uas@10.0.0.1 SIP/2.0\r\n");
-    s.push_str(&format!("Via: SIP/2.0/UDP {PEER};branch=z9hG4bKc11invite\r\n"));
+    let mut s = format!("INVITE {} SIP/2.0\r\n", case.ruri);
+    s.push_str(&format!("Via: SIP/2.0/{} {PEER};branch=z9hG4bKc11invite\r\n", tp_name(case.secure_tp)));
     for l in rr_lines(&case.rr, case.rr_layout, rr) {
         s.push_str(&l);
         s.push_str("\r\n");
@@ -1084,8 +1203,8 @@ fn ack_text(case: &UasCase, to_tag: Option<&str>) -> Vec<u8> {
     };
     request_text(
         "ACK",
-        "sip:uas@10.0.0.1",
-        &[format!("SIP/2.0/UDP {PEER};branch=z9hG4bKc11ack")],
+        &case.ruri,
+        &[format!("SIP/2.0/{} {PEER};branch=z9hG4bKc11ack", tp_name(case.secure_tp))],
         &case.from,
         &to,
         &case.call_id,
@@ -1099,8 +1218,8 @@ fn ack_text(case: &UasCase, to_tag: Option<&str>) -> Vec<u8> {
 fn cancel_text(case: &UasCase) -> Vec<u8> {
     request_text(
         "CANCEL",
-        "sip:uas@10.0.0.1",
-        &[format!("SIP/2.0/UDP {PEER};branch=z9hG4bKc11invite")],
+        &case.ruri,
+        &[format!("SIP/2.0/{} {PEER};branch=z9hG4bKc11invite", tp_name(case.secure_tp))],
         &case.from,
         &case.to,
         &case.call_id,
@@ -1294,7 +1413,7 @@ pub fn run_uas(case: &UasCase) -> Observed {
     let case = case.clone();
     run_world(case.rng as u64, |clock| async move {
         let log = WireLog::new(clock);
-        let (tp, gate) = gated_datagram(&log);
+        let (tp, gate) = gated_datagram(&log, case.secure_tp);
         let rec = Recorder::new(clock);
         let (tx, mut rx) = mpsc::unbounded_channel();
         let mut b = offline_builder();
@@ -1329,6 +1448,10 @@ pub fn run_uas(case: &UasCase) -> Observed {
             }
         };
         obs.local_tag = dialog.local_fromto.tag.as_ref().map(|t| t.to_string());
+        if let Some(n) = case.first_cseq {
+            // the dialog's first local sequence number (one of the values the random draw can yield)
+            dialog.local_cseq.store(n, std::sync::atomic::Ordering::Relaxed);
+        }
         let target = TargetTransportInfo {
             via_host_port: None,
             transport: Some((tp.clone(), peer)),
@@ -1564,9 +1687,19 @@ impl Transport for GateTp {
     }
 }
 
-/// mock datagram transport of the world behind a gate
-fn gated_datagram(log: &WireLog) -> (TpHandle, Arc<Gate>) {
-    let (inner, _) = mock_datagram(log, "UDP", false, false, "10.0.0.1:5060");
+/// name of the world's transport: plain UDP, or a secure datagram transport (DTLS over UDP: same unreliable
+/// delivery, so the transaction timers are the same in both worlds)
+fn tp_name(secure: bool) -> &'static str {
+    if secure {
+        "DTLS-UDP"
+    } else {
+        "UDP"
+    }
+}
+
+/// mock datagram transport of the world (`secure`: one that a sips: URI allows) behind a gate
+fn gated_datagram(log: &WireLog, secure: bool) -> (TpHandle, Arc<Gate>) {
+    let (inner, _) = mock_datagram(log, tp_name(secure), secure, false, "10.0.0.1:5060");
     let gate = Arc::new(Gate::default());
     (TpHandle::new(GateTp { inner, gate: gate.clone() }), gate)
 }
@@ -1784,7 +1917,7 @@ pub fn run_uac(case: &UacCase) -> Observed {
     let case = case.clone();
     run_world(case.rng as u64, |clock| async move {
         let log = WireLog::new(clock);
-        let (tp, gate) = gated_datagram(&log);
+        let (tp, gate) = gated_datagram(&log, case.secure_tp);
         let mut b = offline_builder();
         let dialog_layer = b.add_layer(DialogLayer::default());
         let invite_layer = b.add_layer(InviteLayer::default());
@@ -1834,6 +1967,10 @@ pub fn run_uac(case: &UacCase) -> Observed {
         if !case.initiator {
             let mut cb = ClientDialogBuilder::new(endpoint.clone(), dialog_layer, local_addr, local_contact, target);
             cb.target_tp_info.transport = Some((tp.clone(), peer));
+            if let Some(n) = case.first_cseq {
+                // the application numbers its requests itself
+                cb.local_cseq = n;
+            }
             let mut prev: Option<&Attempt> = None;
             let mut attempts: Vec<Option<&Attempt>> = case.prior.iter().map(Some).collect();
             attempts.push(None);
@@ -2364,13 +2501,32 @@ fn judge_requests(role: Role, dialog: &RefDialog, reqs: &[WireMsg], ops_start: u
             // the block created concurrently: each thread's numbers strictly increase and lie above
             // everything created before; all numbers are distinct
             let before = tr.last;
+            let mut wrapped = false;
+            // the block as a whole counted across a cut-off power of two: its largest number (or the one before
+            // the block) is followed by its smallest the way `wrap_locus` describes.  A thread's number that fails
+            // to increase is then named after that wrap even when other threads took the numbers right behind it
+            let block_len = created.per_thread.iter().map(|n| n.len()).sum::<usize>() as u32;
+            let block_wrap = {
+                let lo = created.per_thread.iter().flatten().copied().min();
+                let hi = created.per_thread.iter().flatten().copied().chain(before).max();
+                match (hi, lo) {
+                    (Some(hi), Some(lo)) if lo < hi => rd::wrap_locus(hi, lo),
+                    _ => None,
+                }
+            };
             let mut all: Vec<u32> = vec![];
             for (t, numbers) in created.per_thread.iter().enumerate() {
                 let mut prev = before;
                 for n in numbers {
                     if let Some(p) = prev {
                         if *n <= p {
-                            if before == Some(p) && tr.floor == before {
+                            if let Some(locus) = rd::wrap_locus(p, *n).or(block_wrap.filter(|_| *n < 64 + block_len)) {
+                                wrapped = true;
+                                out.fail(
+                                    format!("c11.cseq/{r}-{locus}"),
+                                    format!("thread {t}: CSeq {n} follows {p}: the dialog's sequence numbers are not increasing"),
+                                );
+                            } else if before == Some(p) && tr.floor == before {
                                 out.fail(
                                     format!("c11.cseq/{r}-{}", tr.floor_locus()),
                                     format!("thread {t}: request with CSeq {n}, the INVITE that created the dialog had {p} (earlier attempts: {earlier:?})"),
@@ -2406,6 +2562,12 @@ fn judge_requests(role: Role, dialog: &RefDialog, reqs: &[WireMsg], ops_start: u
                 }
             }
             tr.last = all.iter().copied().max().or(tr.last);
+            if wrapped {
+                // the judged sequence goes on from the numbers behind the wrap (one root cause, one signature):
+                // a wrapped number is below 64 (`wrap_locus`), the block adds at most its own length to that
+                let low = 64 + all.len() as u32;
+                tr.last = all.iter().copied().filter(|n| *n < low).max().or(tr.last);
+            }
             if !all.is_empty() {
                 tr.floor = None;
             }
@@ -2539,6 +2701,66 @@ fn rr_relation_classes(rr: &[String], layout: u8, out: &mut CaseOut) {
     }
 }
 
+/// classes of the security dimension: scheme of the URI the dialog-creating INVITE was addressed to x scheme of the
+/// peer's Contact (the remote target) x security of the transport
+fn scheme_classes(invite_sips: bool, contact: &str, secure_tp: bool, out: &mut CaseOut) {
+    let contact_uri = rd::parse_name_addr(contact).map(|n| n.uri.to_ascii_lowercase()).unwrap_or_default();
+    let contact_sips = contact_uri.starts_with("sips:");
+    out.class(match (invite_sips, contact_sips) {
+        (false, false) => "invite-to-sip-uri,peer-contact-sip",
+        (false, true) => "invite-to-sip-uri,peer-contact-sips",
+        (true, false) => "invite-to-sips-uri,peer-contact-sip",
+        (true, true) => "invite-to-sips-uri,peer-contact-sips",
+    });
+    if invite_sips && !contact_sips && contact_uri.contains(";transport=tls") {
+        out.class("invite-to-sips-uri,peer-contact-sip-with-transport=tls");
+    }
+    out.class(if secure_tp { "transport-secure" } else { "transport-plain" });
+}
+
+/// classes of the sequence-number dimension: where the dialog's first local number was put, and (from the numbers
+/// observed) whether the dialog's requests counted across a power of two
+fn cseq_edge_classes(first: Option<u32>, numbers: &[u32], out: &mut CaseOut) {
+    match first {
+        None => out.class("first-cseq-left-to-ezk's-random-draw"),
+        Some(n) => {
+            out.class("first-cseq-chosen");
+            for k in CSEQ_EDGES {
+                let edge = 1u64 << k;
+                if (n as u64) < edge && n as u64 + 10 >= edge {
+                    out.class(match k {
+                        31 => "first-cseq-just-below-2^31",
+                        8 => "first-cseq-just-below-2^8",
+                        16 => "first-cseq-just-below-2^16",
+                        _ => "first-cseq-just-below-2^24",
+                    });
+                }
+            }
+        }
+    }
+    let (Some(lo), Some(hi)) = (numbers.iter().min(), numbers.iter().max()) else { return };
+    for k in CSEQ_EDGES {
+        let edge = 1u64 << k;
+        if (*lo as u64) < edge && *hi as u64 >= edge && (*hi as u64 - *lo as u64) < 4096 {
+            out.class(match k {
+                31 => "dialog-cseq-counts-across-2^31",
+                8 => "dialog-cseq-counts-across-2^8",
+                16 => "dialog-cseq-counts-across-2^16",
+                _ => "dialog-cseq-counts-across-2^24",
+            });
+        }
+    }
+}
+
+/// the CSeq numbers of the requests created in a dialog (ACKs aside), the ones of the threaded block included
+fn observed_numbers(reqs: &[WireMsg], created: &Created) -> Vec<u32> {
+    reqs.iter()
+        .filter(|m| m.method() != Some("ACK"))
+        .filter_map(|m| m.cseq().map(|c| c.0))
+        .chain(created.per_thread.iter().flatten().copied())
+        .collect()
+}
+
 fn class_rr(n: usize) -> &'static str {
     match n {
         0 => "rr-0",
@@ -2604,6 +2826,7 @@ pub fn check_uas(case: &UasCase, out: &mut CaseOut) {
     if case.from.contains(":50") || case.to.contains(":50") {
         out.class("from/to-with-port-or-transport");
     }
+    scheme_classes(case.ruri.starts_with("sips:"), &case.contact, case.secure_tp, out);
 
     for h in &obs.harness {
         out.fail("c11.harness/uas", h.clone());
@@ -2679,6 +2902,7 @@ pub fn check_uas(case: &UasCase, out: &mut CaseOut) {
         refresh_pos: None,
     };
     judge_requests(Role::Uas, &dialog, &reqs, 0, &obs.created, &[], &marks, out);
+    cseq_edge_classes(case.first_cseq, &observed_numbers(&reqs, &obs.created), out);
 
     out.note = Some(format!(
         "local_tag={:?} route_set={:?} target={} | {}",
@@ -2713,6 +2937,7 @@ pub fn check_uac(case: &UacCase, out: &mut CaseOut) {
     if case.code != 200 {
         out.class("peer-2xx-other-than-200");
     }
+    scheme_classes(case.target.starts_with("sips:"), &case.peer_contact, case.secure_tp, out);
     if early_flow(case) {
         out.class("early-dialog-confirmed-by-2xx");
         // how the 1xx's Contact URI relates to the 2xx's (judged on the texts, not on the selector)
@@ -2894,6 +3119,12 @@ pub fn check_uac(case: &UacCase, out: &mut CaseOut) {
         refresh_pos: obs.refresh_pos,
     };
     judge_requests(Role::Uac, &dialog, &reqs, obs.ops_start, &obs.created, &earlier, &marks, out);
+    if !case.initiator {
+        // (with the INVITE's own number: the first request of the dialog follows it)
+        let mut numbers = observed_numbers(&reqs, &obs.created);
+        numbers.extend(dialog.local_seq);
+        cseq_edge_classes(case.first_cseq, &numbers, out);
+    }
     // a Request-URI that is not the remote target but the Contact of the 1xx that created the early dialog: the
     // confirmed dialog kept the early dialog's remote target - a root cause of its own, named so
     if early_flow(case) {
@@ -3005,7 +3236,7 @@ pub fn property() -> Property {
     Property {
         fuzz: vec![],
         id: "C11",
-        rule: "cases = dialog-creating INVITE/2xx pairs (0..4 Record-Route values, each a proxy of its own or related to its predecessor / the entry before it: identical URI, same address with other transport / other parameter, same host with other port / user / scheme; lr/other/header parameters, one or several header lines; random tags; Contact with URI and header parameters, display names, addr-spec form; From/To with display names) in both roles - UAS: peer INVITE injected, Dialog::new_server (directly with ServerInvTsx, or through Acceptor/Session), responses for provisional/2xx/failure codes through create_response; UAC: ClientDialogBuilder + send_invite, or Initiator/Session, 0..3 earlier attempts of the INVITE through the same builder that the peer rejects (401/407/422/3xx/other failures, with/without To-tag, optionally after an early dialog; the repeated INVITE optionally edited, its CSeq optionally raised through ClientDialogBuilder.local_cseq), then the peer answers 2xx, optionally a second 2xx from another fork branch (second dialog, 1..3 requests of its own) - through the Initiator optionally after an early dialog (1xx with the 2xx's To-tag, a Contact that is the 2xx's / differs from it only in URI parameters / in user or port / is unrelated, and a Record-Route list that is the 2xx's / its reverse / a prefix / a superset / absent / unrelated), through ClientDialogBuilder optionally (half) preceded by the early dialog of another fork branch (101-199 with its own To-tag, Contact, Record-Route; Dialog from create_dialog_from_response) with 0..3 further reliable provisional responses inside it (Contact = the dialog's / same address with other parameters, user or port / unrelated / none; Record-Route = the dialog's or another list), every reliable response acknowledged through invite::prack::create_prack(&dialog, &mut response, rseq), plus 0..5 other requests created in the early dialog, all judged against the dialog built from the INVITE and the 1xx that created it - followed by 1..10 create_request calls over BYE/INFO/INVITE/PRACK/UPDATE/MESSAGE (optionally from 4 OS threads), Session::terminate, and the session-refresh re-INVITE + ACK; the Transport::send call of the terminate BYE (0..2 times in a row) or of the refresh re-INVITE optionally stays pending 1..400 ms and then fails (the application repeats terminate / process_default) or returns late, while other tasks create and send 0..3 requests on the shared dialog meanwhile and 0..2 before the repetition. Non-trivial = at least 2 Record-Route entries, or UAC role with a request after the INVITE, or a provisional (>100)/failure response; distinct by hash of the case.",
+        rule: "cases = dialog-creating INVITE/2xx pairs (0..4 Record-Route values, each a proxy of its own or related to its predecessor / the entry before it: identical URI, same address with other transport / other parameter, same host with other port / user / scheme; lr/other/header parameters, one or several header lines; random tags; Contact with URI and header parameters, display names, addr-spec form; From/To with display names) in both roles - UAS: peer INVITE injected, Dialog::new_server (directly with ServerInvTsx, or through Acceptor/Session), responses for provisional/2xx/failure codes through create_response; UAC: ClientDialogBuilder + send_invite, or Initiator/Session, 0..3 earlier attempts of the INVITE through the same builder that the peer rejects (401/407/422/3xx/other failures, with/without To-tag, optionally after an early dialog; the repeated INVITE optionally edited, its CSeq optionally raised through ClientDialogBuilder.local_cseq), then the peer answers 2xx, optionally a second 2xx from another fork branch (second dialog, 1..3 requests of its own) - through the Initiator optionally after an early dialog (1xx with the 2xx's To-tag, a Contact that is the 2xx's / differs from it only in URI parameters / in user or port / is unrelated, and a Record-Route list that is the 2xx's / its reverse / a prefix / a superset / absent / unrelated), through ClientDialogBuilder optionally (half) preceded by the early dialog of another fork branch (101-199 with its own To-tag, Contact, Record-Route; Dialog from create_dialog_from_response) with 0..3 further reliable provisional responses inside it (Contact = the dialog's / same address with other parameters, user or port / unrelated / none; Record-Route = the dialog's or another list), every reliable response acknowledged through invite::prack::create_prack(&dialog, &mut response, rseq), plus 0..5 other requests created in the early dialog, all judged against the dialog built from the INVITE and the 1xx that created it - followed by 1..10 create_request calls over BYE/INFO/INVITE/PRACK/UPDATE/MESSAGE (optionally from 4 OS threads), Session::terminate, and the session-refresh re-INVITE + ACK; in both roles the dialog-creating INVITE is addressed to a sip: or (UAS 2 in 5, UAC 1 in 3) a sips: URI while the peer's Contact is sip: (also ;transport=tls/tcp/udp) or sips: and the transport is plain UDP or a secure datagram transport (always secure for sips:), and the dialog's first local sequence number is left to ezk's random draw or (half) chosen through Dialog.local_cseq (UAS, values the draw can yield) / ClientDialogBuilder.local_cseq (UAC direct flow, INVITE below 2^31): 0..8 below the last number under 2^31 / 2^8 / 2^16 / 2^24, 0, or arbitrary, so that the dialog's requests count across that power of two; the Transport::send call of the terminate BYE (0..2 times in a row) or of the refresh re-INVITE optionally stays pending 1..400 ms and then fails (the application repeats terminate / process_default) or returns late, while other tasks create and send 0..3 requests on the shared dialog meanwhile and 0..2 before the repetition. Non-trivial = at least 2 Record-Route entries, or UAC role with a request after the INVITE, or a provisional (>100)/failure response; distinct by hash of the case.",
         assumptions: vec![
             "requests and responses are read from the mock wire with the independent reader; the dialog is rebuilt by refmodel::ref_dialog from the texts only",
             "ezk's random tags / Call-ID / CSeq base are read back (wire, Dialog.local_fromto.tag), never predicted",
@@ -3022,6 +3253,8 @@ pub fn property() -> Property {
             "UAC: the dialog-creating INVITE is the one whose Via branch / CSeq the peer's 2xx echoes (the last attempt), its number is read from the wire; the numbers of rejected attempts are not judged; the ACKs for rejections share their INVITE's branch and are not counted as created requests",
             "a forked INVITE's two dialogs are judged independently (each: CSeq above the INVITE's and increasing); the second 2xx arrives right after the first, inside the 64*T1 window of the client transaction",
             "the peer's CSeq is below 2^31 (RFC 3261 8.1.1.5); Record-Route URIs carry no ttl parameter (ezk's Route printer omits it per Table 1)",
+            "the dialog's first local sequence number, where chosen, is a value the API can start from by itself: UAS 0..=2^31-2 (the range of random_sequence_number(); the store into the pub AtomicU32 Dialog.local_cseq happens before any request exists and only makes the draw deterministic), UAC direct flow any CSeq below 2^31 for the dialog-creating INVITE (ClientDialogBuilder.local_cseq is a pub field; the raises of earlier attempts are counted in). Strictly increasing is demanded across 2^31 too - the statement has no upper bound, and numbers past 2^31 are what the pinned tree emits",
+            "a dialog-creating INVITE to a sips: URI travels on a secure transport (mock datagram transport with secure() = true, named DTLS-UDP, unreliable like UDP so the transaction timers are unchanged); the peer's Contact scheme is independent of it (sip:...;transport=tls is what deployed phones write); the remote target is the peer's Contact URI verbatim, so the Request-URI keeps its scheme",
         ],
         explanation: "sub uas-codes enumerates every status code 100..=699 through Dialog::create_response / Acceptor::create_response with 0 and 2 Record-Route entries (exhaustive for that sub-space); subs uas and uac sample dialog shapes, request sequences and flows",
         subs: vec![
